@@ -1,19 +1,23 @@
 use crate::report::Ctx;
+pub mod c01;
 pub mod c07;
 pub mod c08;
 pub mod c09;
 pub mod c10;
 pub mod c11;
+pub mod c12;
 pub mod c13;
 pub mod c17;
 
 pub fn lookup(name: &str) -> Option<fn(&mut Ctx)> {
     match name {
+        "C01" => Some(c01::run),
         "C07" => Some(c07::run),
         "C08" => Some(c08::run),
         "C09" => Some(c09::run),
         "C10" => Some(c10::run),
         "C11" => Some(c11::run),
+        "C12" => Some(c12::run),
         "C13" => Some(c13::run),
         "C17" => Some(c17::run),
         _ => None,
